@@ -3,6 +3,7 @@ package c16
 import (
 	"encoding/json"
 	"fmt"
+	"github.com/GuanceCloud/platypus/pkg/errchain"
 	"os"
 	"path/filepath"
 	"runtime"
@@ -130,14 +131,28 @@ func doRun(s *plrt.Script, j *job) string {
 		x, _ := sem.ParseRendered(v)
 		fields[k] = x
 	}
-	tags := map[string]string{}
+	// a point without tags is created with a nil tag map, as a host does that has none
+	var tags map[string]string
 	for k, v := range j.Tags {
+		if tags == nil {
+			tags = map[string]string{}
+		}
 		tags[k] = v
 	}
 	pt := input.GetPoint()
 	input.InitPt(pt, "m", tags, fields, impl.FixedTime())
 	sig := &probe.Sig{}
-	rerr, crash := impl.RunV1(s, pt, sig)
+	// every run is given the host's private values: one map, shared by all goroutines, which the interpreter only reads
+	var rerr *errchain.PlError
+	var crash *impl.Crash
+	func() {
+		defer func() {
+			if r := recover(); r != nil {
+				crash = &impl.Crash{Value: fmt.Sprint(r)}
+			}
+		}()
+		rerr = s.Run(pt, sig, plrt.WithPrivate(sharedPrivate))
+	}()
 	var b strings.Builder
 	if crash != nil {
 		fmt.Fprintf(&b, "CRASH %s\n", crash.Value)
@@ -158,8 +173,45 @@ func doRun(s *plrt.Script, j *job) string {
 	for _, r := range sig.Trace {
 		b.WriteString("\n" + r.String())
 	}
+	if tags != nil {
+		// the tag map the caller passed in stays the caller's: what it holds now is what it holds for good
+		keptMu.Lock()
+		if len(kept) < 4096 {
+			kept = append(kept, keptMap{tags, fmt.Sprint(tags)})
+		}
+		keptMu.Unlock()
+	}
 	input.PutPoint(pt)
 	return b.String()
+}
+
+// sharedPrivate is the host's private-values map handed to every run.
+var sharedPrivate = map[string]any{"host": "h1", "tenant": 7}
+
+type keptMap struct {
+	m    map[string]string
+	want string
+}
+
+var (
+	keptMu sync.Mutex
+	kept   []keptMap
+)
+
+// hostStateIntact checks what belongs to the host after runs: the private-values map and the tag maps of finished points.
+func hostStateIntact() string {
+	if len(sharedPrivate) != 2 || sharedPrivate["host"] != "h1" || sharedPrivate["tenant"] != 7 {
+		return fmt.Sprintf("the host's private-values map was written to during the runs: %v", sharedPrivate)
+	}
+	keptMu.Lock()
+	defer keptMu.Unlock()
+	for _, k := range kept {
+		if got := fmt.Sprint(k.m); got != k.want {
+			return fmt.Sprintf("the tag map a finished run left to its caller changed afterwards: %s -> %s", k.want, got)
+		}
+	}
+	kept = kept[:0]
+	return ""
 }
 
 var zoneNames = []string{"Asia/Shanghai", "Asia/Tokyo", "Asia/Kolkata", "Asia/Dubai", "Asia/Seoul", "Asia/Singapore", "Asia/Bangkok", "Asia/Jakarta", "Asia/Karachi", "Asia/Tehran", "Asia/Kathmandu",
@@ -364,6 +416,9 @@ func execute(t rk.Failer, slot string, sc *scenario) {
 				failures = append(failures, fmt.Sprintf("goroutine %d (%s, repetition %d) differs from its sequential result\nalone:      %s\nconcurrent: %s", ji, j.Kind, rep, clip(j.want), clip(got)))
 			}
 		}
+	}
+	if msg := hostStateIntact(); msg != "" && len(failures) == 0 {
+		failures = append(failures, msg)
 	}
 	clearCurrent()
 	if len(failures) > 0 {
